@@ -14,6 +14,7 @@
  *                            (nothing is dropped or reordered: pins one legal schedule of the threads)
  *   PV_FAULT_FSYNC_REGULAR=<errno>   every fsync of a regular file fails with that errno (a write-back error of the output
  *                           file); other descriptors are left alone
+ *   PV_DELAY_AFTER_POST_US=<us>:<from>-<to>   sleep after the from-th..to-th sem_post (see the end of this file)
  *   PV_DELAY_AFTER_UNLOCK_US=<us>[:<n>]   sleep after every n-th (default 3rd) pthread_mutex_unlock: widens the window between the
  *                           end of a critical section and the statement after it (a legal schedule; nothing is reordered)
  *   PV_DELAY_ONLY=<name>     apply the delays only in the process whose program name ends with <name>
@@ -260,5 +261,33 @@ int pthread_mutex_unlock(pthread_mutex_t *m) {
   delays_init();
   if (delay_u > 0 && (__sync_add_and_fetch(&count, 1) % delay_u_every) == 0) usleep(delay_u);
   busy = 0;
+  return r;
+}
+
+/* PV_DELAY_AFTER_POST_US=<us>:<from>-<to>   sleep after the from-th .. to-th sem_post of the process (1-based): a legal schedule in
+ * which the posting thread is descheduled right after it has made an item available, before its next statement */
+#include <semaphore.h>
+int sem_post(sem_t *sem) {
+  typedef int (*fn_t)(sem_t *);
+  static fn_t real = 0;
+  static volatile long count = 0;
+  static long us = -1, from = 0, to = 0;
+  if (!real) real = (fn_t)dlsym(RTLD_NEXT, "sem_post");
+  int r = real(sem);
+  if (us < 0) {
+    const char *e = getenv("PV_DELAY_AFTER_POST_US");
+    long a = 0, b = 0, c = 0;
+    if (e && sscanf(e, "%ld:%ld-%ld", &a, &b, &c) == 3) { from = b; to = c; us = a; } else us = 0;
+    const char *only = getenv("PV_DELAY_ONLY");
+    if (only) {
+      extern char *program_invocation_short_name;
+      size_t n = strlen(only), m = strlen(program_invocation_short_name);
+      if (m < n || strcmp(program_invocation_short_name + m - n, only)) us = 0;
+    }
+  }
+  if (us > 0) {
+    long k = __sync_add_and_fetch(&count, 1);
+    if (k >= from && k <= to) usleep(us);
+  }
   return r;
 }
